@@ -258,7 +258,16 @@ fn case(i: u64, p: &Params, rep: &mut Report) {
             }
             c
         };
-        let negzero = matches!(&v1, Value::Float(f) if **f == 0.0);
+        fn has_zero_float(v: &Value) -> bool {
+            match v {
+                Value::Float(f) => **f == 0.0,
+                Value::Optional(o) => o.as_deref().map_or(false, has_zero_float),
+                Value::Struct(s) => s.fields().iter().any(|(_, x)| has_zero_float(x)),
+                Value::List(l) => l.iter().any(has_zero_float),
+                _ => false,
+            }
+        }
+        let negzero = has_zero_float(&v1);
         // integer -> float beyond 2^53 is the recorded inexact direction; a float beyond 2^53 is an exact
         // integer and converts exactly to i64 or must be refused
         let big = beyond_int(&v1);
